@@ -287,14 +287,32 @@ class Scalar(AbstractValueWithQuantityObject):
     def __hash__(self) -> int:  # type:ignore[override]
         return hash((self._value, self._quantity))
 
-    def __lt__(self, other: Any) -> bool:
+    def _GetValuesToCompare(self, other: Any) -> Tuple[float, float]:
         if self.quantity_type != other.quantity_type:
             msg = "can not compare scalars of different quantity types: %r != %r"
             raise TypeError(msg % (self.quantity_type, other.quantity_type))
 
         v1 = self._value
         v2 = other.GetValue(self.unit)
+        return v1, v2
+
+    def __lt__(self, other: Any) -> bool:
+        v1, v2 = self._GetValuesToCompare(other)
         return v1 < v2
+
+    # Note: all the operators convert units (total_ordering would derive the ones below from
+    # __eq__, which does not: 1 m != 100 cm).
+    def __le__(self, other: Any) -> bool:
+        v1, v2 = self._GetValuesToCompare(other)
+        return v1 <= v2
+
+    def __gt__(self, other: Any) -> bool:
+        v1, v2 = self._GetValuesToCompare(other)
+        return v1 > v2
+
+    def __ge__(self, other: Any) -> bool:
+        v1, v2 = self._GetValuesToCompare(other)
+        return v1 >= v2
 
     # right ----------------------------------------------------------------------------------------
     def __rtruediv__(self, other: Any) -> "Scalar":
